@@ -130,7 +130,7 @@ def _gen_race(rng, tier):
             pos = _visible_positions(pop, pre)
             for ks in itertools.combinations_with_replacement(pos, nt):
                 cases.append("race %s %s %s %s %s %s %s" % (ser, life, pre, age, pop, top, _sched_from_positions(ks)))
-        n_rand = 6000
+        n_rand = 4000
     else:
         n_rand = 700
     cfgs = list(_race_configs())
@@ -237,7 +237,7 @@ MALFORMED = [
 
 
 def generate(rng, tier):
-    n_hist = 700 if tier == "quick" else 6000
+    n_hist = 700 if tier == "quick" else 4000
     cases = [_gen_hist_one(rng) for _ in range(n_hist)]
     cases += _gen_race(rng, tier)
     cases += MALFORMED
